@@ -143,7 +143,12 @@ func (s *st) get(k []byte) {
 	want, live := s.ru.M.Get(k)
 	for round := 0; round < 2; round++ {
 		kp, kr := arg(k)
-		got, err := s.ru.DB.Get(kp, nil)
+		var ro *opt.ReadOptions
+		if s.r.Intn(3) == 0 {
+			ro = &opt.ReadOptions{DontFillCache: true} // a block already in the cache is still served from it
+			s.c.Count("gets_with_dont_fill_cache", 1)
+		}
+		got, err := s.ru.DB.Get(kp, ro)
 		s.argUnchanged("Get", "key", kp, kr)
 		if live {
 			if err != nil || !bytes.Equal(got, want) {
